@@ -243,6 +243,88 @@ func checkCtorSkeleton(c *Ctx, r *Rec, info *types.Info, fd *ast.FuncDecl, kind 
 			return true
 		})
 	}
+	var viol []string
+	loopRules := func() {
+		// the kinds are sorted out independently of one another: what one argument is turned into
+		// must not depend on which other arguments have been seen so far (their order is free)
+		ast.Inspect(argLoop, func(y ast.Node) bool {
+			as, ok := y.(*ast.AssignStmt)
+			if !ok || as.Tok != token.ASSIGN {
+				return true
+			}
+			for _, l := range as.Lhs {
+				lo := identObj(info, l)
+				if lo == nil || !(kindVars[lo] || lo == notation) {
+					continue
+				}
+				for _, rh := range as.Rhs {
+					ast.Inspect(rh, func(z ast.Node) bool {
+						if id, ok := z.(*ast.Ident); ok {
+							if o := info.Uses[id]; o != nil && o != lo && (kindVars[o] || (notation != nil && o == notation)) {
+								viol = append(viol, fmt.Sprintf("inside the loop over the arguments %s is computed from %s, which holds whatever argument happened to come earlier: %s(a, b) and %s(b, a) build different collections", lo.Name(), o.Name(), kind, kind))
+							}
+						}
+						return true
+					})
+				}
+			}
+			return true
+		})
+		// an argument that was recognised and stored does not go on to the failure for unknown
+		// argument types in the same round of the loop (an arm of an if-chain that lost its continue)
+		{
+			var lbody *ast.BlockStmt
+			switch l := argLoop.(type) {
+			case *ast.RangeStmt:
+				lbody = l.Body
+			case *ast.ForStmt:
+				lbody = l.Body
+			}
+			if lbody != nil {
+				lg := newFG(info, lbody)
+				ast.Inspect(lbody, func(y ast.Node) bool {
+					as, ok := y.(*ast.AssignStmt)
+					if !ok || as.Tok != token.ASSIGN || len(as.Lhs) != 1 {
+						return true
+					}
+					lo := identObj(info, as.Lhs[0])
+					if lo == nil || !(kindVars[lo] || lo == notation) {
+						return true
+					}
+					pt, ok := lg.after(as)
+					if !ok {
+						return true
+					}
+					reach, w := lg.exists(pathQuery{from: pt,
+						goalNode: func(nd ast.Node) bool {
+							found := false
+							inspectNoLit(nd, func(z ast.Node) bool {
+								if call, ok := z.(*ast.CallExpr); ok && noReturnCall(info, call) {
+									found = true
+								}
+								return true
+							})
+							return found
+						}})
+					if reach {
+						viol = append(viol, fmt.Sprintf("after the argument was recognised and stored in %s at %s the same round of the loop can still reach the failure at %s: %s[...] rejects an argument form it documents", lo.Name(), c.pos(as.Pos()), c.pos(w.Pos()), kind))
+					}
+					return true
+				})
+			}
+		}
+	}
+	if len(finals) == 0 && argLoop != nil && len(kindVars) > 0 {
+		// no switch over the kinds (an if-chain, early returns): the rules about the argument loop still apply
+		loopRules()
+		if len(viol) > 0 {
+			r.fail("D5-dispatch-skeleton", construct, c.pos(fd.Pos()), strings.Join(dedup(viol), " | "))
+		} else {
+			r.skip("D5-dispatch-skeleton", construct, c.pos(fd.Pos()), "the kinds found are not dispatched by a tagless switch: only the rules about the argument loop were evaluated (nothing found)")
+		}
+		r.skip("D3-source-branch", construct, c.pos(fd.Pos()), "no dispatch skeleton to find the source arm in")
+		return
+	}
 	if len(finals) == 0 || len(kindVars) == 0 {
 		r.skip("D5-dispatch-skeleton", construct, c.pos(fd.Pos()), "the constructor is not `loop over the arguments that sorts them into kinds; tagless switch over the kinds found`: the skeleton rules are bound to that design")
 		r.skip("D3-source-branch", construct, c.pos(fd.Pos()), "no dispatch skeleton to find the source arm in")
@@ -261,7 +343,6 @@ func checkCtorSkeleton(c *Ctx, r *Rec, info *types.Info, fd *ast.FuncDecl, kind 
 		}
 		return true
 	})
-	var viol []string
 	switch {
 	case classObj == nil:
 		r.skip("D5-dispatch-skeleton", construct, c.pos(fd.Pos()), "the class is not bound to a local through collection."+kind)
@@ -367,31 +448,7 @@ func checkCtorSkeleton(c *Ctx, r *Rec, info *types.Info, fd *ast.FuncDecl, kind 
 			}
 		}
 	}
-	// the kinds are sorted out independently of one another: what one argument is turned into
-	// must not depend on which other arguments have been seen so far (their order is free)
-	ast.Inspect(argLoop, func(y ast.Node) bool {
-		as, ok := y.(*ast.AssignStmt)
-		if !ok || as.Tok != token.ASSIGN {
-			return true
-		}
-		for _, l := range as.Lhs {
-			lo := identObj(info, l)
-			if lo == nil || !(kindVars[lo] || lo == notation) {
-				continue
-			}
-			for _, rh := range as.Rhs {
-				ast.Inspect(rh, func(z ast.Node) bool {
-					if id, ok := z.(*ast.Ident); ok {
-						if o := info.Uses[id]; o != nil && o != lo && (kindVars[o] || (notation != nil && o == notation)) {
-							viol = append(viol, fmt.Sprintf("inside the loop over the arguments %s is computed from %s, which holds whatever argument happened to come earlier: %s(a, b) and %s(b, a) build different collections", lo.Name(), o.Name(), kind, kind))
-						}
-					}
-					return true
-				})
-			}
-		}
-		return true
-	})
+	loopRules()
 	// a collection built from one argument is not thrown away for one built without it
 	{
 		g := newFG(info, fd.Body)
